@@ -288,7 +288,7 @@ func checkAll(c *mc.Ctx, g orb.Geometry, srid int, order binary.ByteOrder, typed
 		if h, err := wkb.MarshalToHex(g, order); err != nil || h != hex.EncodeToString(enc) {
 			c.Failf("encoders-differ", "wkb.MarshalToHex = %s | %s", h, desc)
 		}
-		if order == binary.LittleEndian {
+		if order == wkb.DefaultByteOrder {
 			if v, err := wkb.Value(g).Value(); err != nil || !bytes.Equal(v.([]byte), enc) {
 				c.Failf("encoders-differ", "wkb.Value() = %v,%v | %s", v, err, desc)
 			}
@@ -304,7 +304,7 @@ func checkAll(c *mc.Ctx, g orb.Geometry, srid int, order binary.ByteOrder, typed
 		if h, err := ewkb.MarshalToHex(g, srid, order); err != nil || h != hex.EncodeToString(enc) {
 			c.Failf("encoders-differ", "ewkb.MarshalToHex = %s | %s", h, desc)
 		}
-		if order == binary.LittleEndian {
+		if order == wkb.DefaultByteOrder {
 			if v, err := ewkb.Value(g, srid).Value(); err != nil || !bytes.Equal(v.([]byte), enc) {
 				c.Failf("encoders-differ", "ewkb.Value() = %v,%v | %s", v, err, desc)
 			}
@@ -353,7 +353,7 @@ func checkAll(c *mc.Ctx, g orb.Geometry, srid int, order binary.ByteOrder, typed
 		cmp("wkb.Scanner(nil)/"+fr.name, w.Geometry, 0, err, false)
 	}
 	// 4-byte SRID prefix (supported path): ValuePrefixSRID -> ScannerPrefixSRID
-	if order == binary.LittleEndian {
+	if order == wkb.DefaultByteOrder {
 		for _, psrid := range prefixSRIDs(srid) {
 			pv, err := ewkb.ValuePrefixSRID(g, psrid).Value()
 			if err != nil || pv == nil {
@@ -589,6 +589,25 @@ func main() {
 		}
 	})
 	total(st)
+	// package-level defaults: the byte order of every call without an explicit order (Marshal without argument,
+	// Value, ValuePrefixSRID, NewEncoder) comes from wkb.DefaultByteOrder / ewkb.DefaultByteOrder. The whole
+	// non-collection product again with both set to big endian (the parts run one after the other, so the
+	// variables are constant for the duration of the part)
+	wkb.DefaultByteOrder, ewkb.DefaultByteOrder = binary.BigEndian, binary.BigEndian
+	st = r.Explore("defaults-big-endian", "wkb.DefaultByteOrder = ewkb.DefaultByteOrder = BigEndian: full product of the 8 non-collection kinds (k=3,m=2) x SRIDs {0, 4326, 257} through every encoder that takes no explicit order, every decode path and the SRID-prefix framing", mc.Opts{MaxDev: -1, Split: 3, NewLocal: newLocal}, func(c *mc.Ctx) {
+		l := c.Local().(*loc)
+		l.reset(c.Choose(len(special) / 2))
+		srid := []int{0, 4326, 257}[c.Choose(3)]
+		g := l.g.Kind(c, c.Choose(gg.KCollection), 0, true)
+		if def, _ := wkb.Marshal(g); !isTopNil(g) && (len(def) == 0 || def[0] != 0) {
+			c.Failf("default-order", "wkb.Marshal without an order wrote % x with DefaultByteOrder = BigEndian | %v", def, g)
+		}
+		l.calls += int64(checkAll(c, g, srid, binary.BigEndian, true))
+		c.NonTrivial()
+	})
+	total(st)
+	wkb.DefaultByteOrder, ewkb.DefaultByteOrder = binary.LittleEndian, binary.LittleEndian
+
 	// sizes: element counts whose 4-byte count field crosses a byte lane (255/256/257, 65535/65536/65537), in
 	// each of the six places a count is written
 	counts := []int{255, 256, 257, 1000}
